@@ -2161,8 +2161,10 @@ impl SpeechRules {
         let should_ignore_file_time = self.pref_manager.borrow().pref_to_string("CheckRuleFiles") != "All";     // ignore for "None", "Prefs"
         let rule_file = self.pref_manager.borrow().get_rule_file(&self.name).to_path_buf();     // need to create PathBuf to avoid a move/use problem
         #[cfg(mathcat_verif)]
-        verif::log_load(&format!("{}:rules", self.name), &rule_file, self.rules.is_empty() || !self.rule_files.is_file_up_to_date(&rule_file, should_ignore_file_time));
+        verif::log_load(&format!("{}:rules", self.name), &rule_file, false);
         if self.rules.is_empty() || !self.rule_files.is_file_up_to_date(&rule_file, should_ignore_file_time) {
+            #[cfg(mathcat_verif)]
+            verif::log_reloaded();
             self.rules.clear();
             let files_read = self.read_patterns(&rule_file)?;
             self.rule_files.set_files_and_times(files_read);
@@ -2172,21 +2174,22 @@ impl SpeechRules {
         let unicode_pref_files = if self.name == RulesFor::Braille {pref_manager.get_braille_unicode_file()} else {pref_manager.get_speech_unicode_file()};
 
         #[cfg(mathcat_verif)]
-        verif::log_load(if self.name == RulesFor::Braille {"braille:unicode"} else {"speech:unicode"}, unicode_pref_files.0,
-                        !self.unicode_short_files.borrow().is_file_up_to_date(unicode_pref_files.0, should_ignore_file_time));
+        verif::log_load(if self.name == RulesFor::Braille {"braille:unicode"} else {"speech:unicode"}, unicode_pref_files.0, false);
         if !self.unicode_short_files.borrow().is_file_up_to_date(unicode_pref_files.0, should_ignore_file_time) {
+            #[cfg(mathcat_verif)]
+            verif::log_reloaded();
             self.unicode_short.borrow_mut().clear();
             self.unicode_short_files.borrow_mut().set_files_and_times(self.read_unicode(None, true)?);
         }
 
         #[cfg(mathcat_verif)]
-        verif::log_load(if self.name == RulesFor::Braille {"braille:definitions"} else {"speech:definitions"}, pref_manager.get_definitions_file(self.name != RulesFor::Braille),
-                        self.definitions_files.borrow().ft.is_empty() || !self.definitions_files.borrow().is_file_up_to_date(
-                            pref_manager.get_definitions_file(self.name != RulesFor::Braille), should_ignore_file_time));
+        verif::log_load(if self.name == RulesFor::Braille {"braille:definitions"} else {"speech:definitions"}, pref_manager.get_definitions_file(self.name != RulesFor::Braille), false);
         if self.definitions_files.borrow().ft.is_empty() || !self.definitions_files.borrow().is_file_up_to_date(
                             pref_manager.get_definitions_file(self.name != RulesFor::Braille),
                             should_ignore_file_time
         ) {
+            #[cfg(mathcat_verif)]
+            verif::log_reloaded();
             self.definitions_files.borrow_mut().set_files_and_times(read_definitions_file(self.name != RulesFor::Braille)?);
         }
         return Ok( () );
@@ -2586,9 +2589,10 @@ impl<'c, 's:'c, 'r, 'm:'c> SpeechRulesWithContext<'c, 's,'m> {
                 let unicode_pref_files = if rules.name == RulesFor::Braille {pref_manager.get_braille_unicode_file()} else {pref_manager.get_speech_unicode_file()};
                 let should_ignore_file_time = pref_manager.pref_to_string("CheckRuleFiles") == "All";
                 #[cfg(mathcat_verif)]
-                verif::log_load(if rules.name == RulesFor::Braille {"braille:unicode-full"} else {"speech:unicode-full"}, unicode_pref_files.1,
-                                rules.unicode_full.borrow().is_empty() || !rules.unicode_full_files.borrow().is_file_up_to_date(unicode_pref_files.1, should_ignore_file_time));
+                verif::log_load(if rules.name == RulesFor::Braille {"braille:unicode-full"} else {"speech:unicode-full"}, unicode_pref_files.1, false);
                 if rules.unicode_full.borrow().is_empty() || !rules.unicode_full_files.borrow().is_file_up_to_date(unicode_pref_files.1, should_ignore_file_time) {
+                    #[cfg(mathcat_verif)]
+                    verif::log_reloaded();
                     info!("*** Loading full unicode {} for char '{}'/{:#06x}", rules.name, ch, ch_as_u32);
                     rules.unicode_full.borrow_mut().clear();
                     rules.unicode_full_files.borrow_mut().set_files_and_times(rules.read_unicode(None, false)?);
@@ -2824,6 +2828,15 @@ pub mod verif {
             let mut log = log.borrow_mut();
             if log.len() < 100000 {
                 log.push((kind.to_string(), key.to_string_lossy().to_string(), reload));
+            }
+        });
+    }
+
+    /// marks the last recorded check as one that (re)loads
+    pub fn log_reloaded() {
+        LOAD_LOG.with(|log| {
+            if let Some(last) = log.borrow_mut().last_mut() {
+                last.2 = true;
             }
         });
     }
